@@ -181,6 +181,12 @@ Theorem C09_f64_roundtrip : forall s be h off bits s',
   /\ (is_nan_bits bits = false -> v_float bits = bits).
 Proof. exact f64_roundtrip_lemma. Qed.
 
+(* f32: read_f32 after write_f32 yields the operand rounded to f32 (nearest even) and widened back *)
+Theorem C09_f32_roundtrip : forall s be h off bits s',
+  b_step s (BWriteF 4 be h off bits) = (s', BOkUnit) -> f64_to_f32 bits < 4294967296 ->
+  b_step s' (BRead 4 2 be h off) = (s', BOkWord (v_float (f32_to_f64 (f64_to_f32 bits)))).
+Proof. exact f32_roundtrip_lemma. Qed.
+
 (* offset + width past the end: error, nothing changes -- for every accessor and width *)
 Theorem C09_width_straddle_rejected : forall s h off d w,
   (0 <= h)%Z -> (0 <= off)%Z -> get_buf s (Z.to_N h) = Some d -> N.of_nat (length d) < Z.to_N off + w ->
